@@ -214,7 +214,7 @@ def check_result(ctx, spec, cfg, res, mdp, view, name, refpack=None, pfx="C01"):
     nz = [s for s in states if not zero[s]]
     for s in nz:
         if gamma == 1.0:
-            ctx.check(V[s] >= Vstar[s] - TOL * (1 + abs(Vstar[s])), f"{pfx}.{name}.value_below_optimal",
+            ctx.check(V[s] >= Vstar[s] - TOL * (1 + abs(Vstar[s])) - 1e-13 * ref.rmax_abs() * n, f"{pfx}.{name}.value_below_optimal",
                       lambda: f"state {s}: {V[s]} < V*={Vstar[s]}")
         if math.isfinite(bound[s]):
             ctx.check(abs(V[s] - Vstar[s]) <= bound[s], f"{pfx}.{name}.value_optimal",
@@ -257,7 +257,8 @@ def check_result(ctx, spec, cfg, res, mdp, view, name, refpack=None, pfx="C01"):
         jstar = float(np.where(ref.p0 > 0, ref.p0 * np.where(zero, 0.0, Vstar), 0.0).sum())
         jpi = float(np.where(ref.p0 > 0, ref.p0 * np.where(zero, 0.0, ev["V"]), 0.0).sum())
         Hbar = float(np.where(ref.p0 > 0, ref.p0 * np.where(zero, 0.0, H), 0.0).sum())
-        ctx.check(jpi <= jstar + TOL * (1 + abs(jstar)) and jpi >= jstar - gap * max(Hbar, 1.0) - TOL,
+        ffloor = 1e-13 * ref.rmax_abs() * (n if gamma == 1.0 else 1.0 / (1.0 - gamma))
+        ctx.check(jpi <= jstar + TOL * (1 + abs(jstar)) + ffloor and jpi >= jstar - gap * max(Hbar, 1.0) - TOL - ffloor,
                   f"{pfx}.{name}.policy_return_optimal", lambda: f"J_pi={jpi} J*={jstar} gap={gap} H={Hbar}")
     else:
         ctx.event("policy_check_skipped_infinite_horizon")
@@ -354,7 +355,8 @@ def prop_vi_diff(case, ctx):
             continue
         if gamma < 1.0:
             # (+ the floating-point floor: rounding of values of size |v| is amplified by the horizon 1/(1-gamma))
-            b = 2 * res / (1 - gamma) + 1e-9 + 1e-14 * max(abs(v1), abs(v2)) / (1 - gamma)
+            # (rewards of opposite sign can cancel: the floor is set by the largest reward, not by the resulting value)
+            b = 2 * res / (1 - gamma) + 1e-9 + 1e-14 * max(abs(v1), abs(v2), ref.rmax_abs() / (1 - gamma)) / (1 - gamma)
             ctx.check(abs(v1 - v2) <= b, "C01.diff.values_agree", lambda: f"state {i}: vec {v1} dict {v2} bound {b}")
         else:
             # both are upper bounds converging monotonically; compare only loosely through their policies' horizon
